@@ -438,6 +438,7 @@ const (
 	EPtr      // required single, by name, *N slot
 	ETypeQ    // required single, by type + qualifier, interface slot
 	ESlicePtr // member of the []*N slice, selected by qualifier
+	EBoth     // required single by name AND member of the []Iface slice: one target through two points
 	NumEdgeKinds
 )
 
@@ -593,6 +594,11 @@ func (p *GraphProg) Tags() (tags map[string]map[string]string, slots [][]string)
 				f := fmt.Sprintf("P%d", ptr)
 				ptr++
 				t[f], slots[i][j] = tn, f
+			case EBoth:
+				f := fmt.Sprintf("S%d", s)
+				s++
+				t[f], slots[i][j] = tn, f
+				ql = append(ql, "q"+tn)
 			case ESlice:
 				ql = append(ql, "q"+tn)
 				slots[i][j] = "L0"
